@@ -383,6 +383,11 @@ def build(op, seed, variant=0):
         elif v % 6 == 3 and (v // 6) % 2 == 1:
             # columns of wildly different magnitude (1e120 next to 1e-200): any transient in-place rescaling of the argument loses the small ones
             A = A * np.array([1e120, 1e-200, 1.0, 1e-250, 1e60, 1e-120])[:A.shape[1]][None, :]
+        if v % 6 == 2:
+            A = rng.normal(size=(20, 26) if (v // 6) % 2 == 0 else (33, 17))      # a rank cap far below the size of the matrix
+            if op == "matrix_svd":
+                return C(op, teneva.matrix_svd, [A], dict(e=1e-10, r=2))
+            return C(op, teneva.matrix_skeleton, [A], dict(e=1e-10, r=2, rel=bool((v // 6) % 2), give_to="lrm"[(v // 12) % 3]))
         if op == "matrix_svd":
             return C(op, teneva.matrix_svd, [A], dict(e=[1e-10, 0.5][v % 2], r=[1e12, 2][(v // 2) % 2]))
         if v % 5 == 4:
@@ -424,6 +429,10 @@ def build(op, seed, variant=0):
     if op in ("orthogonalize", "truncate"):
         if op == "orthogonalize":
             return C(op, teneva.orthogonalize, [Y], dict(k=[None, 0, d - 1, d // 2][v % 4], use_stab=bool(v % 2)))
+        if v % 8 == 5:
+            # large modes and ranks with a small cap (the unfoldings are much larger than the cap), SVD mode
+            Yb = mk_tt(rng, [18, 17, 16], 16)
+            return C(op, teneva.truncate, [Yb], dict(e=1e-10, r=2, is_eigh=False))
         return C(op, teneva.truncate, [Y], dict(e=[1e-10, 0.3][v % 2], r=[1e12, 2][(v // 2) % 2], orth=(v % 5 != 4), use_stab=bool((v // 4) % 2), is_eigh=bool((v // 8) % 2)))
     if op in ("orthogonalize_left", "orthogonalize_right"):
         i = int(rng.integers(0, d - 1)) + (op == "orthogonalize_right")
